@@ -21,6 +21,13 @@ pub struct Case {
     pub strategy: u8,
     pub wbits: u8,
     pub sched: Schedule,
+    /// DataFormat::ZLibIgnoreChecksum instead of Zlib ("behaves the same as Zlib for compression")
+    #[serde(default)]
+    pub ignore_fmt: bool,
+    /// settings changed before any data: (0 set_format_and_level(Zlib), 1 set_format_and_level(
+    /// ZLibIgnoreChecksum), 2 set_compression_level_raw; level)
+    #[serde(default)]
+    pub relevel: Option<(u8, u8)>,
 }
 
 pub struct P;
@@ -59,8 +66,8 @@ impl Prop for P {
         // half of the schedules are aligned with the segment boundaries (one call per segment, each with
         // its own flush mode), so that a flush falls exactly between "old data" and its far repeat
         let aligned = proptest::collection::vec((prop_oneof![4 => Just(0u8), 3 => Just(2u8), 1 => Just(3u8), 1 => Just(1u8), 1 => Just(7u8)], prop_oneof![1 => 1u32..=3, 3 => Just(u32::MAX)]), 8);
-        (data, prop_oneof![5 => 0u8..=10, 1 => 11u8..=12], 0u8..=4, prop_oneof![8 => 8u8..=15, 1 => 0u8..=7, 1 => Just(16u8)], schedule(3), proptest::option::weighted(0.5, aligned))
-            .prop_map(|(data, level, strategy, wbits, mut sched, aligned)| {
+        (data, prop_oneof![5 => 0u8..=10, 1 => 11u8..=12], 0u8..=4, prop_oneof![8 => 8u8..=15, 1 => 0u8..=7, 1 => Just(16u8)], schedule(3), proptest::option::weighted(0.5, aligned), (proptest::bool::weighted(0.25), proptest::option::weighted(0.2, (0u8..=2, 0u8..=10))))
+            .prop_map(|(data, level, strategy, wbits, mut sched, aligned, (ignore_fmt, relevel))| {
                 if let Some(al) = aligned {
                     let mut steps = Vec::new();
                     let mut tmp = Vec::new();
@@ -83,28 +90,43 @@ impl Prop for P {
                     }
                     sched.steps = steps;
                 }
-                Case { data, level, strategy, wbits, sched }
+                Case { data, level, strategy, wbits, sched, ignore_fmt, relevel }
             })
             .boxed()
     }
     fn check(case: &Case, cx: &mut Ctx) -> Check {
         let x = case.data.expand();
         let w_eff = case.wbits.min(15).max(8);
-        let mut c = guard(|| CompressorOxide::with_params(DataFormat::Zlib, case.level, strategy_of(case.strategy as i32), case.wbits)).map_err(|pm| Violation::new(panic_sig("with_params", &pm), format!("with_params panicked: {pm}")))?;
+        let fmt = if case.ignore_fmt { DataFormat::ZLibIgnoreChecksum } else { DataFormat::Zlib };
+        let mut c = guard(|| CompressorOxide::with_params(fmt, case.level, strategy_of(case.strategy as i32), case.wbits)).map_err(|pm| Violation::new(panic_sig("with_params", &pm), format!("with_params panicked: {pm}")))?;
+        if case.ignore_fmt {
+            cx.class("format:ZLibIgnoreChecksum");
+        }
+        if let Some((kind, lvl)) = case.relevel {
+            // legal before any data; may be refused (documented) - the window promises hold either way
+            guard(|| match kind {
+                0 => c.set_format_and_level(DataFormat::Zlib, lvl),
+                1 => c.set_format_and_level(DataFormat::ZLibIgnoreChecksum, lvl),
+                _ => c.set_compression_level_raw(lvl),
+            })
+            .map_err(|pm| Violation::new(panic_sig("set_level", &pm), format!("setter panicked: {pm}")))?;
+            cx.class(&format!("settings-changed-before-data:{kind}"));
+        }
+        let how = format!("{fmt:?}{}", match case.relevel { Some((k, l)) => format!(", then {}({l})", ["set_format_and_level(Zlib, ", "set_format_and_level(ZLibIgnoreChecksum, ", "set_compression_level_raw("][k as usize % 3].trim_end_matches(", ").trim_end_matches('(')), None => String::new() });
         let run = drive_compress(&mut c, &x, &case.sched, Driver::Buf)?;
         let out = &run.out;
         vensure!(out.len() >= 6, "c11:short-output", "zlib output of {} bytes", out.len());
         let cinfo = out[0] >> 4;
         vensure!(out[0] & 15 == 8 && cinfo <= 7, "c11:header", "CMF {:#x}", out[0]);
         let wclass = if case.wbits.min(15) < 12 { "<12" } else if case.wbits < 15 { "12-14" } else { "15" };
-        vensure!(cinfo + 8 <= w_eff, format!("c11:header-declares-more-than-requested:w{wclass}"), "window_bits {} requested, header declares 2^{}", case.wbits, cinfo + 8);
+        vensure!(cinfo + 8 <= w_eff, format!("c11:header-declares-more-than-requested:w{wclass}"), "window_bits {} requested ({how}), header declares 2^{}", case.wbits, cinfo + 8);
         let declared = 1u32 << (cinfo + 8);
         // plain validity first (C10's business if it fails, but nothing below makes sense without it)
         let r0 = ref_inflate(out, &Opts::zlib());
         vensure!(r0.verdict == Verdict::Valid && r0.out == x, "c11:output-invalid", "output not valid / wrong plaintext: {:?}", r0.verdict);
         let r = ref_inflate(out, &Opts { enforce_declared_window: true, ..Opts::zlib() });
         let sigd = format!("c11:distance-beyond-declared-window:w{wclass}");
-        vensure!(r.verdict != Verdict::Invalid(Rule::DistBeyondDeclared), sigd.clone(), "with_params(Zlib, level {}, strategy {}, window_bits {}): header declares a {} byte window but a match reaches back {} bytes (input {} bytes)", case.level, case.strategy, case.wbits, declared, r0.max_dist(), x.len());
+        vensure!(r.verdict != Verdict::Invalid(Rule::DistBeyondDeclared), sigd.clone(), "with_params({how}, level {}, strategy {}, window_bits {}): header declares a {} byte window but a match reaches back {} bytes (input {} bytes)", case.level, case.strategy, case.wbits, declared, r0.max_dist(), x.len());
         vensure!(r.verdict == Verdict::Valid, "c11:output-invalid", "declared-window reference run: {:?}", r.verdict);
         // the crate's own decoder with a ring of exactly the declared size
         let mut d = DecompressorOxide::new();
